@@ -136,6 +136,11 @@ def getCookies (hdrs : List Str) : List (Str × Str) := hdrs.flatMap parseCookie
 /-- `Request._set_cookies`: one header replaces all -/
 def setCookies (ps : List (Str × Str)) : List Str := [formatCookie ps]
 
+/-- `Response._get_cookies` at the level of pair lists: every cookie found in every Set-Cookie header (empty ones skipped) -/
+def getSetCookies (hdrs : List Str) : List (List (Str × Option Str)) := (hdrs.flatMap parseSetCookie).filter (· ≠ [])
+/-- `Response._set_cookies`: one header per cookie -/
+def setSetCookies (cs : List (List (Str × Option Str))) : List Str := cs.map formatSetCookie
+
 /-! ### multipart.py -/
 def B (s : String) : Bytes := s.toUTF8.toList
 
